@@ -13,7 +13,7 @@ Inductive region :=
 | RAS923 (group_offset_hz : Z)   (* AS923-1..4: frequency offset of the channel group *)
 | RAU915 | RCN470 | RCN779 | REU433 | REU868 | RIN865 | RISM2400 | RKR920 | RRU864 | RUS915.
 
-Definition region_of (name : string) : option region :=
+Definition region_of_common (name : string) : option region :=
   if String.eqb name "AS923" then Some (RAS923 0)
   else if String.eqb name "AS923-2" then Some (RAS923 (-1800000))
   else if String.eqb name "AS923-3" then Some (RAS923 (-6600000))
@@ -29,6 +29,24 @@ Definition region_of (name : string) : option region :=
   else if String.eqb name "RU864" then Some RRU864
   else if String.eqb name "US915" then Some RUS915
   else None.
+
+(* band.GetConfig also accepts the deprecated (still exported) spellings; each is a second name
+   of one common name and must give the same band in every respect *)
+Definition deprecated_names : list (string * string) :=
+  [("AS_923", "AS923"); ("AU_915_928", "AU915"); ("CN_470_510", "CN470"); ("CN_779_787", "CN779");
+   ("EU_433", "EU433"); ("EU_863_870", "EU868"); ("IN_865_867", "IN865"); ("KR_920_923", "KR920");
+   ("US_902_928", "US915"); ("RU_864_870", "RU864")]%string.
+
+Fixpoint assoc_string (k : string) (m : list (string * string)) : option string :=
+  match m with
+  | [] => None
+  | (k', v) :: m' => if String.eqb k k' then Some v else assoc_string k m'
+  end.
+
+Definition common_name (name : string) : string :=
+  match assoc_string name deprecated_names with Some c => c | None => name end.
+
+Definition region_of (name : string) : option region := region_of_common (common_name name).
 
 (* ---- data-rate definitions ---------------------------------------------- *)
 (* direction: can the data-rate be used for uplink / downlink *)
